@@ -61,7 +61,9 @@ BodySets(bd, b, i) ==
     [] bd \in {"raise", "braise"} -> IF i = 1 THEN Val(b, i) ELSE Unset
 BodyEnds(bd) == CASE bd = "raise" -> "fe" [] bd = "braise" -> "fb" [] OTHER -> "ok"
 
-Init == /\ \E kb \in ({"own"} \X Bodies) \cup {<<"debug", "all">>} : kind = kb[1] /\ body = kb[2]
+Only == IF "ONLY" \in DOMAIN IOEnv THEN IOEnv.ONLY ELSE "*"      \* "<kind>/<body>" restricts a run to one configuration
+Init == /\ \E kb \in ({"own"} \X Bodies) \cup {<<"debug", "all">>} :
+             kind = kb[1] /\ body = kb[2] /\ (Only = "*" \/ Only = kb[1] \o "/" \o kb[2])
         /\ pre \in {0, 2}
         /\ st = <<"pending">> /\ out = <<"none">> /\ items = << [j \in 1..pre |-> Unset] >> /\ runs = <<0>> /\ active = 1
         /\ log = <<>> /\ cur = NoCur /\ hist = <<>>
@@ -162,7 +164,7 @@ FlushAgain(b) ==
 
 (* cancel(): never raises; completes every item with the cancellation error, then the batch; no-op when finished *)
 Cancel(b, e) ==
-  /\ Idle /\ (IF Finished(b) THEN InOrder(IF e = "ce" THEN "cancel_e" ELSE "cancel", b, 0) ELSE TRUE)
+  /\ Idle /\ (IF Finished(b) THEN e = "bce" /\ InOrder("cancel", b, 0) ELSE TRUE)   \* on a finished batch the argument cannot matter: one form
   /\ LET o == IF e = "ce" THEN "cancel_e" ELSE "cancel"
          n == Len(items[b])
      IN IF st[b] = "pending"
